@@ -83,3 +83,78 @@ Theorem borrow_roundtrip_alignment :
     s' = fold_left (rt_step T P W St N assign final inputs args names) (seq 0 (length inputs)) s.
 Proof. exact roundtrip. Qed.
 Print Assumptions borrow_roundtrip_alignment.
+
+(* all four sites that split a call's outputs into regular and borrowed returns use the same
+   split (LocalCall, TensorCall, compile_call of function.py and traced.py) *)
+Theorem split_sites_agree :
+  forall (T W : Type) (type_to_row : T -> list T) output outs,
+    split_local_call T W type_to_row output outs = split_global_call T W type_to_row output outs /\
+    split_tensor_call T W type_to_row output outs = split_global_call T W type_to_row output outs /\
+    split_traced_call T W type_to_row output outs = split_global_call T W type_to_row output outs.
+Proof. intros. repeat split; reflexivity. Qed.
+Print Assumptions split_sites_agree.
+
+From V.C07 Require Import ModelDfc ModelSem ProofsSem.
+
+(* writeback_semantics_partial.  Store-passing semantics over value trees (struct fields,
+   tuple elements, statically indexed elements).  A callee body is a sequence of in-place
+   updates `x_k.q := g(x_k.q)` of sub-places of its parameters.  If the caller lends
+   pairwise disjoint places rho of its store sigma (no aliasing), then
+     - running the body by reference on sigma (Python's semantics for mutable objects) and
+     - the compiled call: copy the values out, run the body on the copies, write output k
+       back to the k-th lent place (vr_call)
+   both succeed, and in both resulting stores every lent place holds the callee's final value
+   of the corresponding parameter, every place below a lent place has the same value, and
+   every place disjoint from all lent places is unchanged.
+   PARTIAL: (1) callee bodies have no nested calls and no control flow (nested borrowing
+   calls are covered per call by borrow_roundtrip_alignment and at the HUGR level by the
+   correspondence harness); (2) equality of the two stores on proper ancestors of lent places
+   is not derived (it needs extensionality of value trees); (3) dynamically indexed array
+   elements are not in this semantics. *)
+Theorem writeback_semantics_partial :
+  forall (prim : nat -> val -> val) body sigma rho vs outs,
+    view sigma rho vs -> disjoint_places rho ->
+    vr_exec prim body (VProd vs) = Some (VProd outs) ->
+    exists sigma_ref,
+      ref_exec prim rho body sigma = Some sigma_ref /\
+      vr_call prim rho body sigma = Some (writeback sigma rho outs) /\
+      view sigma_ref rho outs /\ view (writeback sigma rho outs) rho outs /\
+      (forall b, outside rho b -> vget sigma_ref b = vget sigma b /\ vget (writeback sigma rho outs) b = vget sigma b) /\
+      (forall k r q, nth_error rho k = Some r ->
+         vget sigma_ref (r ++ q) = vget (writeback sigma rho outs) (r ++ q)).
+Proof. exact semantics_agree. Qed.
+Print Assumptions writeback_semantics_partial.
+
+(* instance: store ((q0,q1),(q2,q3),q4); the caller lends .1.0 and .0.1 (same type, swapped
+   order); the callee applies g=7 to its parameter 0 and g=8 to parameter 1, twice *)
+Example writeback_semantics_instance :
+  let A := fun n => VAtom (AIn n []) in
+  let prim := fun g v => match v with VAtom (AIn n p) => VAtom (AIn (n * 10 + g) p) | _ => v end in
+  let sigma := VProd [VProd [A 0; A 1]; VProd [A 2; A 3]; A 4] in
+  let rho := [[1; 0]; [0; 1]] in
+  let body := [SPrim 7 [0]; SPrim 8 [1]; SPrim 7 [1]] in
+  view sigma rho [A 2; A 1] /\
+  ref_exec prim rho body sigma = Some (VProd [VProd [A 0; A 187]; VProd [A 27; A 3]; A 4]) /\
+  vr_call prim rho body sigma = Some (VProd [VProd [A 0; A 187]; VProd [A 27; A 3]; A 4]).
+Proof.
+  cbv zeta. split; [|split; vm_compute; reflexivity].
+  split; [reflexivity|]. intros [|[|k]] r v H1 H2; simpl in *; inversion H1; inversion H2; subst; try reflexivity.
+  destruct k; discriminate.
+Qed.
+
+(* the DFContainer model on the program of corpus/stale_packed_parent.json: the struct is
+   moved, re-assigned field by field, the fields are lent in swapped order, the struct is
+   returned.  The returned struct is built from the call's borrowed outputs. *)
+Example dfc_repack_after_leaf_writeback :
+  let Q := TAtom true in
+  let te := fun x => match x with 0 => TProd [Q; Q] | _ => TAtom false end in
+  let b := mkInput Q (mkFlags true false false) in
+  run_function te [0]
+    [mkCall 11 [mkInput (TProd [Q; Q]) (mkFlags false true false)] [CPlace (PVar 0)] 0 None;
+     mkCall 12 [] [] 1 (Some (PChild (PVar 0) 0));
+     mkCall 12 [] [] 1 (Some (PChild (PVar 0) 1));
+     mkCall 10 [b; b] [CPlace (PChild (PVar 0) 1); CPlace (PChild (PVar 0) 0)] 1 None] [0]
+  = Some ([VProd [VAtom (AOut 3 2 []); VAtom (AOut 3 1 [])]],
+          [Ev 11 [VProd [VAtom (AIn 0 [0]); VAtom (AIn 0 [1])]]; Ev 12 []; Ev 12 [];
+           Ev 10 [VAtom (AOut 2 0 []); VAtom (AOut 1 0 [])]]).
+Proof. vm_compute. reflexivity. Qed.
